@@ -128,7 +128,27 @@ def gen_sub(rnd, nops, kinds, nin=1, share=True):
   sinks = [t for t in produced if t not in used]
   extra = [t for t in produced if t in used and rnd.random() < 0.25]
   gouts = sorted(set(sinks + extra))
-  return {"ops": ops, "trole": role, "tbuf": tbuf, "tsh": [list(x) for x in tsh], "gins": list(range(nin)), "gouts": gouts}
+  if rnd.random() < 0.12:       # the same tensor listed twice among the outputs (return y, y)
+    gouts = gouts + [rnd.choice(gouts)]
+  sub = {"ops": ops, "trole": role, "tbuf": tbuf, "tsh": [list(x) for x in tsh], "gins": list(range(nin)), "gouts": gouts}
+  u = rnd.random()
+  if u < 0.15:        # activations before constants
+    order = [t for t in range(len(role)) if role[t] == "act"] + [t for t in range(len(role)) if role[t] != "act"]
+    sub = relabel(sub, order)
+  elif u < 0.3:       # any order of the tensor table
+    order = list(range(len(role)))
+    rnd.shuffle(order)
+    sub = relabel(sub, order)
+  return sub
+
+
+def relabel(sub, order):
+  """The same graph with the tensor table in another order: order[p] = old id of the tensor at new position p."""
+  perm = {old: new for new, old in enumerate(order)}
+  perm[-1] = -1
+  return {"ops": [{"kind": o["kind"], "ins": [perm[t] for t in o["ins"]], "outs": [perm[t] for t in o["outs"]]} for o in sub["ops"]],
+          "trole": [sub["trole"][t] for t in order], "tbuf": [sub["tbuf"][t] for t in order], "tsh": [sub["tsh"][t] for t in order],
+          "gins": [perm[t] for t in sub["gins"]], "gouts": [perm[t] for t in sub["gouts"]]}
 
 
 def gen(seed, min_ops=3, max_ops=8, kinds=None, nsub=1, uniform_mode=None):
